@@ -8,6 +8,7 @@ import (
 	"fmt"
 	"strings"
 
+	"github.com/inbucket/inbucket/v3/pkg/config"
 	"github.com/inbucket/inbucket/v3/pkg/policy"
 	"github.com/inbucket/inbucket/v3/pkg/server/smtp"
 
@@ -52,6 +53,30 @@ func blockSubject(b []byte) string {
 // smtpOracles checks the clauses of C01/C03/C05/C06/C17 on one transcript.
 func smtpOracles(c *core.Ctx, sc *smtpCase, res *dialogueResult, st *smtpStack) {
 	env := sc.env
+	if sc.pipelined {
+		// replies cannot be attributed to lines by the client; attribute them the way the protocol does: one reply per
+		// command line, none for body lines, one for the terminator (the reply stream itself is compared with the model)
+		k := 1
+		inData := false
+		for i, l := range sc.d.lines {
+			if k >= len(res.replies) {
+				break
+			}
+			if inData {
+				if string(l) == ".\r\n" {
+					res.lineReply[i] = k
+					k++
+					inData = false
+				}
+				continue
+			}
+			res.lineReply[i] = k
+			if res.replies[k].code == 354 {
+				inData = true
+			}
+			k++
+		}
+	}
 	cas := sc.describe()
 	fail := func(oracle, detail string) { c.Fail(oracle, cas, detail, "") }
 	for i, r := range res.replies {
@@ -68,6 +93,7 @@ func smtpOracles(c *core.Ctx, sc *smtpCase, res *dialogueResult, st *smtpStack) 
 	blockIdx := 0
 	var curBlock []byte
 	var expect []expectedCopy
+	tolerated := map[string]int{} // copies left behind by a transaction that an injected store fault aborted
 	exact := true // false when something happened the simple oracle cannot attribute (then only the safety clauses are checked)
 	for i, l := range sc.d.lines {
 		ri := res.lineReply[i]
@@ -106,6 +132,27 @@ func smtpOracles(c *core.Ctx, sc *smtpCase, res *dialogueResult, st *smtpStack) 
 							expect = append(expect, expectedCopy{mailbox: mb, subject: subj, from: "", block: curBlock})
 						}
 					}
+				}
+			}
+			if r.code == 451 && len(env.failBoxes) > 0 {
+				// an injected store fault: Deliver stops at the failing mailbox; the copies made before it remain
+				// (outside the property's quantifier — the model states it as deliver_partial_on_store_failure)
+				subj := blockSubject(curBlock)
+				for _, a := range accepted {
+					rc, err := st.ap.NewRecipient(a)
+					if err != nil || !env.ruleStore(rc.Domain) {
+						continue
+					}
+					failing := false
+					for _, fb := range env.failBoxes {
+						if fb == rc.Mailbox {
+							failing = true
+						}
+					}
+					if failing {
+						break
+					}
+					tolerated[rc.Mailbox+"\x00"+subj]++
 				}
 			}
 			inTrans, accepted = false, nil
@@ -296,13 +343,13 @@ func smtpOracles(c *core.Ctx, sc *smtpCase, res *dialogueResult, st *smtpStack) 
 			got[m.mailbox+"\x00"+m.subject]++
 		}
 		for k, n := range want {
-			if got[k] != n {
+			if got[k] != n && got[k] != n+tolerated[k] {
 				p := strings.SplitN(k, "\x00", 2)
 				fail("stored-exactly-once", fmt.Sprintf("mailbox %q should hold %d cop(ies) of %q after the acknowledged transactions, holds %d", p[0], n, p[1], got[k]))
 			}
 		}
 		for k, n := range got {
-			if want[k] == 0 {
+			if want[k] == 0 && tolerated[k] < n {
 				p := strings.SplitN(k, "\x00", 2)
 				fail("nothing-else-stored", fmt.Sprintf("mailbox %q holds %d message(s) %q that no acknowledged transaction accounts for", p[0], n, p[1]))
 			}
@@ -327,6 +374,19 @@ func smtpOracles(c *core.Ctx, sc *smtpCase, res *dialogueResult, st *smtpStack) 
 }
 
 func inTransBefore(code int, inTrans bool) bool { return false }
+
+func namingRoot(n string) *config.Root {
+	r := &config.Root{}
+	switch n {
+	case "local":
+		r.MailboxNaming = config.LocalNaming
+	case "full":
+		r.MailboxNaming = config.FullNaming
+	default:
+		r.MailboxNaming = config.DomainNaming
+	}
+	return r
+}
 
 func runSmtpProfile(c *core.Ctx, p smtpProfile) {
 	n := c.Scale(p.n[0], p.n[1])
@@ -366,7 +426,22 @@ func runSmtpProfile(c *core.Ctx, p smtpProfile) {
 					}
 				}
 			}
-			sc := &smtpCase{env: env, d: d, cut: -1, await: true}
+			if p.faults && r.Intn(2) == 0 {
+				// an I/O fault of the store for one or two of the mailboxes this dialogue delivers to
+				for _, l := range d.lines {
+					cmd, arg, ok := harnessParseCmd(strings.TrimRight(string(l), "\r\n"))
+					if ok && cmd == "RCPT" && len(arg) > 3 && r.Intn(3) == 0 {
+						if rc, err := (&policy.Addressing{Config: namingRoot(env.naming)}).NewRecipient(strings.Trim(arg[3:], "<> ")); err == nil {
+							env.failBoxes = append(env.failBoxes, rc.Mailbox)
+						}
+					}
+				}
+			}
+			sc := &smtpCase{env: env, d: d, cut: -1, await: true, pipelined: p.pipelined && r.Intn(2) == 0}
+			if sc.pipelined && (len(d.lines) == 0 || string(d.lines[len(d.lines)-1]) != "QUIT\r\n") {
+				d.lines = append(d.lines, []byte("QUIT\r\n"))
+				sc.d = d
+			}
 			res, st := runSmtpCase(c, m, sc)
 			nontriv := false
 			if res != nil && st != nil {
@@ -486,6 +561,7 @@ func init() {
 	register("C01", func(c *core.Ctx) {
 		c.Res.Rule = smtpRule
 		runSmtpProfile(c, smtpProfile{name: "c01", n: [2]int{1200, 40000}, errRate: 12, namings: allNamings})
+		runSmtpProfile(c, smtpProfile{name: "c01fault", n: [2]int{300, 8000}, errRate: 4, namings: allNamings, faults: true})
 		runSmtpProfile(c, smtpProfile{name: "c01cap", n: [2]int{200, 6000}, errRate: 5, namings: allNamings, withCap: true})
 		if f, ok := extra["C01"]; ok {
 			f(c)
@@ -494,6 +570,7 @@ func init() {
 	register("C03", func(c *core.Ctx) {
 		c.Res.Rule = smtpRule + "; plus every dialogue of the cut profile replayed with the connection cut after EVERY byte offset (with and without waiting for the last reply)"
 		runSmtpProfile(c, smtpProfile{name: "c03", n: [2]int{800, 30000}, errRate: 35, namings: allNamings})
+		runSmtpProfile(c, smtpProfile{name: "c03pipe", n: [2]int{500, 15000}, errRate: 10, namings: []string{"local"}, pipelined: true})
 		runSmtpProfile(c, smtpProfile{name: "c03cut", n: [2]int{12, 300}, errRate: 4, cuts: -1, namings: []string{"local"}})
 		if f, ok := extra["C03"]; ok {
 			f(c)
